@@ -45,7 +45,7 @@ def main():
             "source_commits": repo_commits(),
             "add_only": True,
         },
-        "engines": [{"name": "vrt", "path": "/verif/cmd/vrt", "serves_properties": [c["property_id"] for c in checks],
+        "engines": [{"name": "vrt", "path": "/verif/cmd", "serves_properties": [c["property_id"] for c in checks],
                      "kind_free_text": "Go harness with one runtime monitor per property; runs the real runtime / compiler from /repo under generated workloads and decides with oracles over observed events"}],
         "checks": checks,
         "notes": "Every check rebuilds from /repo's working tree. VERIF_SEED selects the PRNG stream; VERIF_SCRATCH overrides the scratch base (/var/tmp). Known findings: /verif/known_findings.json.",
